@@ -208,7 +208,7 @@ def run(ctx, driver):
     specs = [c["case"] for c in ctx.corpus() if "case" in c]
     # ---- regular
     rng = ctx.rng("regular")
-    for _ in range(600 if quick else 20000):
+    for _ in range(ctx.n(600, 20000)):
         c = gen_regular(rng)
         out = [float(x) for x in SpikeGenerator._generate_regular_spikes(c["T"], c["rate"])]
         ctx.evaluations += 1
@@ -228,7 +228,7 @@ def run(ctx, driver):
     # ---- poisson (direct calls, recorded draws)
     rng = ctx.rng("poisson")
     import random
-    for i in range(300 if quick else 8000):
+    for i in range(ctx.n(300, 8000)):
         T = rng.choice([0.01, 0.1, 1.0, rng.uniform(0, 0.5), 1e-4, 3e-4, 3e-4])
         rate = rng.choice([50., 500., 5000., 1e6, 5e6, rng.uniform(10, 1e4)])
         if T * rate > 800:
@@ -255,7 +255,7 @@ def run(ctx, driver):
     ctx.sample({"op": "poisson", "spec": spec, "impl_head": out[:4], "n": len(out)})
     # ---- list
     rng = ctx.rng("list")
-    for i in range(300 if quick else 8000):
+    for i in range(ctx.n(300, 8000)):
         T = rng.choice([0.01, 0.1, 1.0, 0.0])
         text = gen_list(rng, T)
         spec = {"stimuli": [{"type": "list", "list": text, "variables": ["x'"]}], "sim_time": T, "marker": "__d"}
@@ -276,7 +276,7 @@ def run(ctx, driver):
     ctx.sample({"op": "list", "spec": spec, "impl": out[:5]})
     # ---- full specifications
     rng = ctx.rng("spec")
-    specs = specs + [dict(gen_spec(rng), seed=rng.randrange(10 ** 6)) for _ in range(300 if quick else 6000)]
+    specs = specs + [dict(gen_spec(rng), seed=rng.randrange(10 ** 6)) for _ in range(ctx.n(300, 6000))]
     for spec in specs:
         rr = run_real_spec(spec)
         ctx.evaluations += 1
